@@ -30,6 +30,7 @@ PROPS = {
     ),
     "C11": dict(
         files=[("op::data", "c11_data.rs")],
+        generators=[gen.gen_c11],
         bounds="units of the lookup: index helper (len<=3, every i64), key typing per shape, string data <=2 chars of symbolic width, array data of 2 scalars, paths <=2 (quick) / 3 (thorough) chars over {a . \\ 1}, default logic on concrete keys",
         out="nested object paths and objects (BTreeMap search over symbolic node contents), the frame property over arbitrary data trees, computed keys, var with a symbolic key through the public function",
     ),
